@@ -103,8 +103,10 @@ TIE_LEMMAS = {"C11": ["tie_max_depths", "tie_new_explicit", "tie_next_ltr", "tie
 TIE_FALLBACK_EXHAUSTIVE = {"C14", "C15"}
 
 def srcgen_sha():
-    p = os.path.join(COQ, "SrcGen.v")
-    return hashlib.sha256(open(p, "rb").read()).hexdigest() if os.path.exists(p) else "none"
+    """what a recorded tie failure is relative to: the translated source, the primitives and the lemma templates"""
+    ps = [os.path.join(COQ, "SrcGen.v"), os.path.join(COQ, "RsPrelude.v")] + \
+         [os.path.join(COQ, "Proofs", t + ".v.in") for t in TIE_TEMPLATES]
+    return sha([p for p in ps if os.path.exists(p)])
 
 def load_failed_blocks():
     """tie-lemma blocks known not to check against the current SrcGen.v: {block id: [lemma names]}"""
